@@ -1,6 +1,7 @@
 (* C19 - the command line reports success and failure through its exit status.
    Theorems about the decision table Cli.main_model. *)
 From HclV Require Import Base Cli Generated.
+From HclV Require CliArgs CliArgsSpec CliArgsProofs.
 Open Scope string_scope.
 Open Scope N_scope.
 
@@ -91,3 +92,40 @@ Example C19_timeouts :
   parse_u32 "4294967296" = None /\ parse_u32 "-1" = None /\ parse_u32 "abc" = None /\ parse_u32 "" = None /\
   parse_u32 "+" = None /\ parse_u32 "+7" = Some 7 /\ parse_u32 "007" = Some 7 /\ parse_u32 "1 " = None.
 Proof. vm_compute. repeat split; reflexivity. Qed.
+
+(* ---- over the RAW argument vector (CliArgs.v: parse_argv models what the getopts crate does with
+   hclrs's table of nine flags - `--`, a lone `-`, combined short flags, one-letter long names read
+   as short ones, repeated or valued flags refused; CliArgsSpec.v / CliArgsProofs.v) --------------- *)
+(* the parser is characterised by an independent inductive reading of the argument vector *)
+Theorem C19_argument_syntax : CliArgsSpec.stmt_parse_argv_characterised.
+Proof. exact CliArgsProofs.parse_argv_characterised_holds. Qed.
+Print Assumptions C19_argument_syntax.
+(* exit status 0 exactly for: help asked, version asked, check passed, simulated and printed the
+   final state - each with its exact condition on the argument vector; otherwise 1 *)
+Theorem C19_exit_zero_iff : CliArgsSpec.stmt_exit_zero_iff.
+Proof. exact CliArgsProofs.exit_zero_iff_holds. Qed.
+Print Assumptions C19_exit_zero_iff.
+(* each failure cause of the property's sentence gives status 1; failure never prints a final state *)
+Theorem C19_each_failure_cause_exits_one : CliArgsSpec.stmt_each_failure_cause_exits_one.
+Proof. exact CliArgsProofs.each_failure_cause_exits_one_holds. Qed.
+Print Assumptions C19_each_failure_cause_exits_one.
+Theorem C19_no_final_state_on_failure : CliArgsSpec.stmt_no_final_state_on_failure.
+Proof. exact CliArgsProofs.no_final_state_on_failure_holds. Qed.
+Print Assumptions C19_no_final_state_on_failure.
+(* --check never simulates; the timeout honoured is the third positional's numeral or 9999; the
+   image must be named *.yo, case-sensitively *)
+Theorem C19_check_timeout_and_name_rules :
+  CliArgsSpec.stmt_check_simulates_nothing /\ CliArgsSpec.stmt_timeout_honoured /\ CliArgsSpec.stmt_yo_name_rule.
+Proof.
+  split; [exact CliArgsProofs.check_simulates_nothing_holds |
+  split; [exact CliArgsProofs.timeout_honoured_holds | exact CliArgsProofs.yo_name_rule_holds]].
+Qed.
+Print Assumptions C19_check_timeout_and_name_rules.
+(* the order and spelling of the options do not matter; the output options never change the result *)
+Theorem C19_option_order_spelling_and_output_options :
+  CliArgsSpec.stmt_option_order_free /\ CliArgsSpec.stmt_spelling_free /\ CliArgsSpec.stmt_output_options_irrelevant.
+Proof.
+  split; [exact CliArgsProofs.option_order_free_holds |
+  split; [exact CliArgsProofs.spelling_free_holds | exact CliArgsProofs.output_options_irrelevant_holds]].
+Qed.
+Print Assumptions C19_option_order_spelling_and_output_options.
